@@ -663,3 +663,54 @@ RECIPES += [
     ("C19", "break", ["C19-R3"], D, "        updata1 = np.zeros(shape)\n", "        updata1 = np.empty(shape)\n", "resample: samples stuffed into an uninitialised buffer"),
     ("C19", "neutral", [], D, "        updata1 = np.zeros(shape)\n", "        updata1 = np.zeros_like(data, shape=shape, dtype=float)\n", "resample: buffer from np.zeros_like(data, shape=...)"),
 ]
+
+
+def _area_curve(start="0.0", store="_area[j]", nseg="Freq.size - 1"):
+    return f"""    def _curve_area(p):
+        total = {start}
+        for i in range({nseg}):
+            f1, f2 = Freq[i], Freq[i + 1]
+            p1, p2 = p[i], p[i + 1]
+            s = np.log(p2 / p1) / np.log(f2 / f1)
+            if abs(s + 1.0) < 1e-5:
+                total += p1 * f1 * np.log(f2 / f1)
+            else:
+                total += (f2 * p2 - f1 * p1) / (s + 1.0)
+        return total
+
+    for j in range(PSD.shape[1]):
+        {store} = _curve_area(PSD[:, j])
+    return _area
+"""
+
+
+RECIPES += [
+    ("C19", "neutral", [], P, _AREA_LOOPS, _area_curve(), "area: one curve at a time - a helper sums the segment areas of a column into a scalar that starts from 0, the result is stored under the column index"),
+    ("C19", "break", ["C19-R1"], P, _AREA_LOOPS, _area_curve(start="1.0"), "area: per-curve scalar accumulator that starts from 1"),
+    ("C19", "break", ["C19-R1"], P, _AREA_LOOPS, _area_curve(store="_area[0]"), "area: every curve's area stored in element 0"),
+    ("C19", "break", ["C19-R1"], P, _AREA_LOOPS, _area_curve(nseg="Freq.size - 2"), "area: per-curve helper that leaves out the last segment"),
+]
+
+
+def _rc_empty(trip="cols", row=":"):
+    return f"""    nb = len(FL)
+    cal = np.empty((nb, cols))
+    cau = np.empty((nb, cols))
+    for i in range({trip}):
+        cal[{row}, i] = np.interp(FL, Fa, ca[:, i])
+        cau[{row}, i] = np.interp(FU, Fa, ca[:, i])
+"""
+
+
+_IP_TAIL = """        psdfull = ifunc(np.log(freq))
+        pv = (freq >= Freq[0]) & (freq <= Freq[-1])
+        psdfull[pv] = np.exp(psdfull[pv])
+"""
+
+RECIPES += [
+    ("C19", "neutral", [], P, _RC_LOOP, _rc_empty(), "rescale: the two band-edge arrays allocated with np.empty (every column is overwritten in the loop over all columns)"),
+    ("C19", "break", ["C19-R4"], P, _RC_LOOP, _rc_empty(trip="cols - 1"), "rescale: uninitialised arrays, the last column never written"),
+    ("C19", "neutral", [], P, _IP_TAIL, "        psdfull = ifunc(np.log(freq))\n        inside = ~((freq < Freq[0]) | (freq > Freq[-1]))\n        psdfull[inside] = np.exp(psdfull[inside])\n",
+     "interp: in-range mask written as the complement of the two out-of-range tests"),
+    ("C19", "break", ["C19-R2"], P, _IP_TAIL, "        psdfull = np.exp(ifunc(np.log(freq)))\n", "interp: exp of every result, in range or not (out-of-range gives 1)"),
+]
